@@ -381,7 +381,8 @@ def run(ctx):
         got = it.call_function(ph, [], {"header": header, "use_double_colon": dbl, "header_aliases": lh, "header_columns": lcols}, None, ph.node)
         r3.check(got == want, f"process_header[choices {header!r}]", f"-> {want}", ph.loc(), why_fail=repr(got))
     ts = ctx.func("pyxform.parsing.sheet_headers:to_snake_case", "C13.R3")
-    for v, want in (("  List   Name ", "list_name"), ("Read Only", "read_only"), ("label", "label")):
+    for v, want in (("  List   Name ", "list_name"), ("Read Only", "read_only"), ("label", "label"), ("Form\u00a0Title", "form_title"), ("Form\tID", "form_id"), ("Instance\nName", "instance_name"),
+                    ("\tRead \t Only\n", "read_only")):
         it.reset([])
         r3.check(it.call_function(ts, [v], {}, None, ts.node) == want, f"to_snake_case[{v!r}]", f"-> {want!r}", ts.loc())
     dg = ctx.func("pyxform.parsing.sheet_headers:dealias_and_group_headers", "C13.R3")
